@@ -47,6 +47,12 @@ CHECKS["C07"] = dict(
    note="Trusted: model/expr.go interpreter and its copies of the public function package's semantics. One 4-row frame.",
    design="5/C07")
 
+CHECKS["C08"] = dict(
+   technique="complete enumeration of a finite input space (column maps x ColumnOrder x Enums variants; projection requests x index shapes) against a reference model",
+   text="Every column map of 0-3 columns over 13 data kinds (all supported slice and Const types, unsupported types, nil) with every length combination, every ColumnOrder variant (permutations, too short/long, unknown, duplicate) and Enums variant, legal and illegal names, string cells of arbitrary bytes; and every Select sequence, Drop subset, Slice bound pair around 0..n and Copy pair on five index shapes. New must reject exactly what the model rejects and otherwise reproduce every cell; projections must return exactly the requested columns/rows or Err.",
+   note="Trusted: modelNew/runProjCase in checks/c08.go. Two readings deliberately left open (row count of a zero-column frame; Drop of a non-existent column).",
+   design="5/C08")
+
 NOT_YET = {}
 BASELINE_CMD = "for m in $(cat /w/out/gomods.txt); do MF=$(cd /repo/$m && . /w/out/goenv.sh && gomodflag); (cd /repo/$m && go test $MF -json -vet=off -count=1 -timeout 25m ./...); done"
 
